@@ -151,7 +151,12 @@ def evaluate(ctx, cases):
                 models = None
             else:
                 bg = BycycleGroup(thresholds={}, return_samples=c['rs'])
-                implutil.quiet(bg.fit, sigs, fs, fr, axis=axis, n_jobs=c['n_jobs'])
+                target = sigs
+                if c['seed'] % 2 == 0:      # a buffer history: fitted on a buffer holding the signals in reverse order (both dimensions), refilled IN PLACE, fitted again
+                    target = np.array(sigs[::-1, ::-1])
+                    implutil.quiet(bg.fit, target, fs, fr, axis=axis, n_jobs=1)
+                    target[:] = sigs
+                implutil.quiet(bg.fit, target, fs, fr, axis=axis, n_jobs=c['n_jobs'])
                 res, models = bg.df_features, bg.models
             err = None
         except Exception as e:
